@@ -896,6 +896,9 @@ func (v *vRun) judge() {
 var vfySeq int
 
 func execVfy(c *ctx, line string) string {
+	if strings.HasPrefix(line, "#race") {
+		return execVfyRace(c, line)
+	}
 	f := strings.Split(line, " ")
 	if f[0] != "vfy" || len(f) < 2 {
 		return "badinput"
